@@ -35,7 +35,15 @@ pub open spec fn spec_default_challenge<C: Ciphersuite>(R: Element<C>, verifying
 pub open spec fn spec_default_verify_signature_rfc<C: Ciphersuite>(message: Seq<u8>, signature: Signature<C>, public_key: VerifyingKey<C>) -> Result<(), Error<C>>
 { spec_verify::<C>(public_key, message, signature) }
 
+// the default single_sign (SigningKey::default_sign): plain Schnorr with the nonce from the generate_nonce hook and the challenge hook
+pub open spec fn spec_default_single_sign<C: Ciphersuite>(sk: crate::SigningKey<C>, stream: spec_fn(nat) -> u8, pos: nat, msg: Seq<u8>) -> Signature<C> {
+    let n = C::spec_generate_nonce(stream, pos);
+    let vk = VerifyingKey::<C> { element: crate::serialization::SerializableElement(gmul::<C>(sk.scalar)) };
+    Signature::<C> { R: n.1, z: sadd::<C>(n.0, smul::<C>(C::spec_hook_challenge(n.1, vk, msg)->Ok_0, sk.scalar)) }
+}
+
 pub open spec fn default_world<C: Ciphersuite>() -> bool {
+    &&& forall|k: crate::SigningKey<C>, st: spec_fn(nat) -> u8, p: nat, m: Seq<u8>| #[trigger] C::spec_single_sign(k, st, p, m) == spec_default_single_sign::<C>(k, st, p, m)
     &&& forall|a: SigningPackage<C>, b: crate::round1::SigningNonces<C>, c: KeyPackage<C>| #[trigger] C::spec_pre_sign(a, b, c) == Ok::<(SigningPackage<C>, crate::round1::SigningNonces<C>, KeyPackage<C>), Error<C>>((a, b, c))
     &&& forall|a: SigningPackage<C>, b: BTreeMap<Identifier<C>, crate::round2::SignatureShare<C>>, c: PublicKeyPackage<C>| #[trigger] C::spec_pre_aggregate(a, b, c)
             == Ok::<(SigningPackage<C>, BTreeMap<Identifier<C>, crate::round2::SignatureShare<C>>, PublicKeyPackage<C>), Error<C>>((a, b, c))
